@@ -96,6 +96,27 @@ type c20EmbMisc struct {
 }
 type c20Str8 [8]byte
 
+// interior pointers: a pointer to an object and a pointer to the part of it at offset 0 hold the same address but
+// have different types and pointee sizes
+type c20Hdr struct {
+	ID  int64
+	Tag string
+}
+type c20Rec struct {
+	Header c20Hdr
+	Body   []byte
+}
+type c20IdxA struct {
+	Rec *c20Rec
+	Hdr *c20Hdr
+	ID  *int64
+}
+type c20IdxB struct {
+	ID  *int64
+	Hdr *c20Hdr
+	Rec *c20Rec
+}
+
 func (s c20Str8) String() string { return string(s[:]) }
 
 func init() {
@@ -114,7 +135,7 @@ func init() {
 			return []string{"release"}
 		},
 		Required: []string{"kind/uint", "kind/uintptr", "kind/int", "kind/bool", "kind/complex128", "kind/string", "kind/slice", "kind/array", "kind/map",
-			"kind/ptr", "kind/interface", "kind/struct", "nil/ptr", "nil/interface", "nil/slice", "nil/map", "empty/slice", "empty/map", "nil/argument", "stat/avg", "named", "large-containers", "containers>=4096-elements", "named/embedding", "depth>1000", "same-named-distinct-types"},
+			"kind/ptr", "kind/interface", "kind/struct", "nil/ptr", "nil/interface", "nil/slice", "nil/map", "empty/slice", "empty/map", "nil/argument", "stat/avg", "named", "large-containers", "containers>=4096-elements", "named/embedding", "named/interior-pointers", "depth>1000", "same-named-distinct-types"},
 		Families: func(c *mon.Config) []mon.Family {
 			return []mon.Family{
 				{Name: "cold-start", N: 1, Serial: true, Run: func(w *mon.W, _ int) {
@@ -647,6 +668,7 @@ func c20NamedTypes(w *mon.W, idx int) {
 	c20Observe(w, nm, e2, "named-slice")
 	_ = g
 	c20Embedded(w)
+	c20Interior(w)
 	w.Sample(func() interface{} { return mon.D{"type": "props.c20Outer", "expected": exp} })
 }
 
@@ -679,6 +701,31 @@ func c20Embedded(w *mon.W) {
 	// embedded interface (nil / holding an array value) and embedded named scalar
 	c20Observe(w, c20EmbMisc{K: 1}, c20Iface+4+8, "embedded-interface")
 	c20Observe(w, c20EmbMisc{Stringer: c20Str8{1}, c20Word: 5, K: 1}, c20Iface+8+4+8, "embedded-interface")
+}
+
+func c20Interior(w *mon.W) {
+	r := w.Rng
+	tag := c20Strings[r.Intn(len(c20Strings))]
+	rec := &c20Rec{Header: c20Hdr{ID: int64(r.Uint64()), Tag: tag}, Body: make([]byte, r.Intn(9))}
+	szHdr := 8 + c20Str + len(tag)
+	szRec := szHdr + c20Slice + len(rec.Body)
+	w.Bucket("named/interior-pointers")
+	all := 3*c20Ptr + szRec + szHdr + 8
+	c20Observe(w, c20IdxA{Rec: rec, Hdr: &rec.Header, ID: &rec.Header.ID}, all, "interior-pointer")
+	c20Observe(w, c20IdxB{Rec: rec, Hdr: &rec.Header, ID: &rec.Header.ID}, all, "interior-pointer")
+	c20Observe(w, c20IdxA{Rec: rec, ID: &rec.Header.ID}, 3*c20Ptr+szRec+8, "interior-pointer")
+	c20Observe(w, []interface{}{&rec.Header, rec}, c20Slice+2*(c20Iface+c20Ptr)+szHdr+szRec, "interior-pointer")
+	var arr [4]int32
+	c20Observe(w, []interface{}{&arr, &arr[0]}, c20Slice+2*(c20Iface+c20Ptr)+16+4, "interior-pointer")
+	c20Observe(w, []interface{}{&arr[0], &arr}, c20Slice+2*(c20Iface+c20Ptr)+16+4, "interior-pointer")
+	sl := make([]int16, 3+r.Intn(4))
+	c20Observe(w, struct {
+		First *int16
+		All   *[]int16
+		Again *int16
+	}{&sl[0], &sl, &sl[0]}, 3*c20Ptr+2+2+c20Slice+2*len(sl), "interior-pointer")
+	// the same pointer twice: every occurrence pays for its pointee
+	c20Observe(w, []*c20Rec{rec, rec}, c20Slice+2*(c20Ptr+szRec), "repeated-pointer")
 }
 
 // c20Huge: slices, arrays and maps of 4096..262147 elements (lengths that are no multiple of any small number)
